@@ -60,33 +60,35 @@ def check(an, rep, tier):
                       'expected 3 ValueError rejections before the first '
                       'effect, found %d' % len(before),
                       line=fn.node.lineno, file=mod.path)
-    need_missing = False
-    need_vld = False
-    for r in before:
-        gs = P.norm_guards(prog, fn, r)
-        names = set()
-        for t, pol in gs:
-            if pol:
-                names |= _none_tests(t)
-        isnone = {n for n, pos in names if pos}
-        if {'m', 'e', 'nswp'} <= isnone:
-            need_missing = True
-        if ('e_vld', False) in names and ({'I_vld', 'y_vld'} & isnone):
-            need_vld = True
-    if need_missing:
-        rep.ok('P-validate', 'cross.cross', 'missing stop criteria rejected '
-               '(m, e, nswp all None)')
-    else:
-        rep.violation('P-validate', 'cross.cross', 'missing stop criteria',
-                      'no rejection is guarded by "m is None and e is None '
-                      'and nswp is None"', line=fn.node.lineno, file=mod.path)
-    if need_vld:
-        rep.ok('P-validate', 'cross.cross', 'e_vld without validation data '
-               'rejected')
-    else:
-        rep.violation('P-validate', 'cross.cross', 'e_vld without data',
-                      'no rejection for e_vld given without I_vld / y_vld',
-                      line=fn.node.lineno, file=mod.path)
+    # the two documented rejections, decided by abstract execution with the
+    # None / not-None pattern of the stop and validation arguments (however
+    # the tests are spelt: nested ifs, flags, all(...), De Morgan forms)
+    from .common import dom3
+    from .. import interp as _interp
+    base = dict(f='cb', Y0='tt', info='dict')
+    scen = [
+        ('missing stop criteria (m, e, nswp all None, no validation data)',
+         dict(), True),
+        ('missing stop criteria (validation data given, e_vld None)',
+         dict(I_vld='I[mv,d]', y_vld='f[mv]'), True),
+        ('e_vld without validation data', dict(m='int:mmax', e_vld='num'),
+         True),
+        ('e_vld with I_vld but without y_vld',
+         dict(m='int:mmax', e_vld='num', I_vld='I[mv,d]'), True),
+        ('a budget alone is accepted', dict(m='int:mmax'), False),
+        ('validation data with e_vld alone is accepted',
+         dict(I_vld='I[mv,d]', y_vld='f[mv]', e_vld='num'), False),
+    ]
+    for what, extra, bad in scen:
+        v_ = dict(base)
+        v_.update(extra)
+        I_ = _interp.Interp(prog, {'split': dict(specs.DEFAULT_SPLIT),
+                                   'summary': dict(specs.DEFAULT_SUMMARY)})
+        I_.run_function(fn, specs.build_args(v_, 2))
+        st3, d3 = dom3(I_.raises, I_.entry_returns, bad, 'cross.cross')
+        rep.add('P-validate', 'cross.cross', what, st3,
+                '' if st3 == 'ok' else 'this argument combination is ' + d3,
+                line=fn.node.lineno, file=mod.path)
     # --- interpreter: every return path well formed, batches int [rows, d]
     ds = (2, 3) if tier == 'quick' else (2, 3, 4, 5)
     vs = specs.variants('cross.cross')
@@ -126,7 +128,8 @@ def check(an, rep, tier):
                             'cross._func_eval'})
     from .. import rules_proto as _RPZ
     _RPZ.check_none_vs_zero(prog, rep, modules={'cross', 'utils'})
-    rep.floor('P-budget', 2, 'objective call sites')
+    rep.floor('P-budget', 1, 'objective call sites')
+    rep.floor('P-validate', 6, 'argument validation')
     rep.floor('P-count', 4, 'counter paths')
     rep.floor('P-stop-writers', 6, 'stop writers (cross + _info_appr)')
     rep.floor('P-interrupt', 2, 'interruption sites')
